@@ -21,6 +21,8 @@ Reasons(e) ==
     \cup (IF ~e.refs_ok THEN {<<"backlink-uri-or-target-wrong">>} ELSE {})
     \cup (IF ~e.def_ok THEN {<<"definition-uri-does-not-open-the-file">>} ELSE {})
     \cup (IF ~e.sym_ok THEN {<<"symbol-uri-does-not-open-the-file">>} ELSE {})
+    \* the workspace edit of a code action on the note (extract its sub-section) addresses the note's file
+    \cup (IF "act_ok" \in DOMAIN e /\ ~e.act_ok THEN {<<"code-action-edit-does-not-address-the-file", e.edit_uris>>} ELSE {})
 
 Step == /\ l <= Len(Rec) /\ l' = l + 1
         /\ LET e == Rec[l] IN
